@@ -31,6 +31,11 @@ type watcher struct {
 	// statistics
 	changes, cpuWrites, dmaChanges, bugChanges, offCycles, onMode2Cycles, pointerOps int64
 	failed                                                                           bool
+	// the byte the DMA unit fetched in the previous cycle and the place it will store it
+	dmaIdx   int
+	dmaVal   uint8
+	dmaSet   bool
+	dmaBytes int64
 }
 
 // cycle advances one machine cycle under observation.
@@ -45,23 +50,68 @@ func (w *watcher) cycle() bool {
 		return false
 	}
 	after := m.OAM.XSnapshot()
-	dma1, _ := m.OAM.XDMA()
+	dma1, c1 := m.OAM.XDMA()
+	// the transfer stores in this cycle what it fetched in the previous one - unless FF46 was
+	// written in this cycle (the transfer starts over)
+	pend := w.dmaSet && dma0 && !(dma1 && c1 == 1)
+	pendIdx, pendVal := w.dmaIdx, w.dmaVal
+	w.dmaSet = false
+	if dma1 && c1 >= 2 {
+		base := uint16(m.Mem.Read(0xff46)) << 8
+		if base >= 0xe000 {
+			base -= 0x2000
+		}
+		w.dmaSet, w.dmaIdx, w.dmaVal = true, int(c1)-2, m.Mem.Read(base+c1-2)
+	}
 	if !lcdOn {
 		w.offCycles++
 	} else if mode == 2 {
 		w.onMode2Cycles++
 	}
-	if before == after {
+	if before == after && !(pend && after[pendIdx] != pendVal && !(lcdOn && mode == 2)) {
+		if pend {
+			w.dmaBytes++
+		}
 		return true
 	}
 	w.changes++
-	if dma0 || dma1 {
-		w.dmaChanges++
-		return true
-	}
 	if lcdOn && mode == 2 {
 		w.bugChanges++
 		return true
+	}
+	if dma0 || dma1 {
+		// a transfer is running (and the OAM bug is out of the question): a byte may change
+		// because the transfer stores the byte it fetched, or because the CPU writes it
+		w.dmaChanges++
+		bad, badWhy := -1, ""
+		if pend && after[pendIdx] != pendVal {
+			bad, badWhy = pendIdx, fmt.Sprintf("the transfer fetched %02X for it in the previous cycle", pendVal)
+		}
+		for i := range after {
+			if bad >= 0 || after[i] == before[i] || (pend && i == pendIdx) {
+				continue
+			}
+			ok := w.f.UnitPartial()
+			for _, a := range w.f.UnitWrites() {
+				if a.Addr >= 0xfe00 && a.Addr < 0xfea0 && int(a.Addr-0xfe00) == i && a.Val == after[i] {
+					ok = true
+				}
+			}
+			if !ok {
+				bad, badWhy = i, "it is neither the byte the transfer stores in this cycle nor written by the CPU"
+			}
+		}
+		if pend {
+			w.dmaBytes++
+		}
+		if bad < 0 {
+			return true
+		}
+		regs := lockstep.Regs(m)
+		w.c.Violate("oam-changed-during-dma", fmt.Sprintf("%s: a transfer is running (progress counter %d after the cycle), LCD on=%v mode=%d: [FE%02X] %02X->%02X; %s; the CPU unit in flight writes %v (PC=%04X SP=%04X BC=%04X DE=%04X HL=%04X)",
+			w.label, c1, lcdOn, mode, bad, before[bad], after[bad], badWhy, w.f.UnitWrites(), regs.PC, regs.SP, regs.BC(), regs.DE(), regs.HL()), w.what())
+		w.failed = true
+		return false
 	}
 	// the change must be exactly what the CPU wrote
 	exp := before
@@ -123,6 +173,7 @@ func run(c *rig.Ctx) {
 		c.Count("oam_changes", w.changes)
 		c.Count("oam_changes_by_cpu_write", w.cpuWrites)
 		c.Count("oam_changes_by_dma", w.dmaChanges)
+		c.Count("dma_bytes_checked_against_the_fetch", w.dmaBytes)
 		c.Count("oam_changes_in_mode2", w.bugChanges)
 		c.Eval(w.offCycles + w.onMode2Cycles)
 	}
